@@ -50,6 +50,7 @@ func init() {
 			ruleWBAppend(c)
 			ruleODBlock(c)
 			ruleCPFresh(c, findReadFile(c.P))
+			ruleENCSize(c)
 			c.Note("not decided: contents of the encodings appended by codec.Write (C01/C02); determinism of the compressors")
 		})
 
